@@ -298,6 +298,21 @@ Definition remote_leaf_ok (leaf : bytes) : bool :=
       end
   end.
 
+(* what the three regular expressions denote, stated directly *)
+Definition alnum_suffix (r : bytes) : Prop :=
+  (1 <= length r <= 16)%nat /\ Forall (fun b => is_alnum b = true) r.
+Definition local_shape (leaf : bytes) : Prop :=
+  exists r, leaf = pfx_local ++ r /\ alnum_suffix r.
+Definition remote_shape (leaf : bytes) : Prop :=
+  exists h d r, leaf = pfx_remote ++ h ++ underscore :: d ++ underscore :: r /\
+    h <> [] /\ Forall (fun b => is_hostch b = true) h /\
+    d <> [] /\ Forall (fun b => is_digit b = true) d /\ alnum_suffix r.
+(* the address-qualified form FS[_REMOTE]_<ip>_<port>_<suffix> *)
+Definition addr_shape (remote : bool) (leaf ip port : bytes) : Prop :=
+  exists sfx, leaf = (if remote then pfx_remote else pfx_local) ++ ip ++ underscore :: port ++ underscore :: sfx /\
+    parse_ip ip <> None /\ (1 <= length port <= 5)%nat /\
+    Forall (fun b => is_digit b = true) port /\ alnum_suffix sfx.
+
 (* fsAddrLeaf *)
 Definition port_ok (port : bytes) : bool :=
   Nat.leb 1 (length port) && Nat.leb (length port) 5 && forallb is_digit port.
@@ -330,6 +345,10 @@ Definition verify_endpoint (ip port : bytes) (pr : peer) : bool :=
       | _, _ => false
       end
   end.
+
+(* the name's address is the connection's peer: same port text, same IP address *)
+Definition names_endpoint (ip port : bytes) (pr : peer) : Prop :=
+  exists h a, pr = PHP h port /\ parse_ip ip = Some a /\ parse_ip h = Some a.
 
 (* validateFSAuthPath *)
 Inductive vres := VOk (leaf : bytes) | VErr (cls : N).
@@ -376,8 +395,36 @@ Record xresult := { x_eff : list effect; x_reply : option Z; x_ret : ret }.
 
 Definition under_base (leaf : bytes) : bytes := fs_base ++ slash :: leaf.
 
-(* performFSAuthenticationClient (with the cleanup registered right after a
-   successful Mkdir) *)
+(* the validation + Mkdir step: (effects, result code, cleanup to run on return) *)
+Definition mkdir_part (remote : bool) (pr : peer) (env : fsenv) (p : bytes)
+  : list effect * Z * list effect :=
+  if is_nil p then ([], (-1)%Z, [])
+  else match validate p remote pr with
+       | VErr _ => ([], (-1)%Z, [])
+       | VOk leaf =>
+           if open_root_ok env then
+             if mkdir_ok env leaf
+             then ([EMkdir (under_base leaf) true], 0%Z, [ERmdir (under_base leaf)])
+             else ([EMkdir (under_base leaf) false], (-1)%Z, [])
+           else ([], (-1)%Z, [])
+       end.
+
+(* the rest of the exchange: send the code, read the verdict *)
+Definition exchange_tail (sc : script) : ret :=
+  if negb (sc_put sc) then RetErr 4
+  else if negb (sc_fin sc) then RetErr 5
+  else match sc_res sc with
+       | IoFail => RetErr 6
+       | IoOk v =>
+           match sc_eom2 sc with
+           | EomErr => RetErr 7
+           | EomMore => RetErr 8
+           | EomOk => if (v =? 0)%Z then RetNil else RetErr 9
+           end
+       end.
+
+(* performFSAuthenticationClient (with the cleanup registered right after the
+   Mkdir step, so that it runs on every return after it) *)
 Definition client_exchange (remote : bool) (pr : peer) (env : fsenv) (sc : script) : xresult :=
   match sc_path sc with
   | IoFail => {| x_eff := []; x_reply := None; x_ret := RetErr 1 |}
@@ -386,29 +433,8 @@ Definition client_exchange (remote : bool) (pr : peer) (env : fsenv) (sc : scrip
     | EomErr => {| x_eff := []; x_reply := None; x_ret := RetErr 2 |}
     | EomMore => {| x_eff := []; x_reply := None; x_ret := RetErr 3 |}
     | EomOk =>
-      let '(eff1, code, cleanup) :=
-        if is_nil p then ([], (-1)%Z, [])
-        else match validate p remote pr with
-             | VErr _ => ([], (-1)%Z, [])
-             | VOk leaf =>
-                 if open_root_ok env then
-                   if mkdir_ok env leaf
-                   then ([EMkdir (under_base leaf) true], 0%Z, [ERmdir (under_base leaf)])
-                   else ([EMkdir (under_base leaf) false], (-1)%Z, [])
-                 else ([], (-1)%Z, [])
-             end in
-      let fin (r : ret) := {| x_eff := eff1 ++ cleanup; x_reply := Some code; x_ret := r |} in
-      if negb (sc_put sc) then fin (RetErr 4)
-      else if negb (sc_fin sc) then fin (RetErr 5)
-      else match sc_res sc with
-           | IoFail => fin (RetErr 6)
-           | IoOk v =>
-               match sc_eom2 sc with
-               | EomErr => fin (RetErr 7)
-               | EomMore => fin (RetErr 8)
-               | EomOk => if (v =? 0)%Z then fin RetNil else fin (RetErr 9)
-               end
-           end
+      let '(eff1, code, cleanup) := mkdir_part remote pr env p in
+      {| x_eff := eff1 ++ cleanup; x_reply := Some code; x_ret := exchange_tail sc |}
     end
   end.
 
